@@ -468,8 +468,13 @@ func typeOfJSONValue(v any) ExprType {
 		return &ArrayType{Elem: elem}
 	case map[string]any:
 		props := make(map[string]ExprType, len(v))
-		for k, v := range v {
-			props[k] = typeOfJSONValue(v)
+		keys := make([]string, 0, len(v))
+		for k := range v {
+			keys = append(keys, k)
+		}
+		sort.Strings(keys) // keys which differ only in case collide. visit them in fixed order
+		for _, k := range keys {
+			props[strings.ToLower(k)] = typeOfJSONValue(v[k]) // property names are case insensitive
 		}
 		return NewStrictObjectType(props)
 	case nil:
